@@ -68,7 +68,7 @@ def stages(tier, rng, only=None):
         rng.shuffle(corpus)
         cs = []
         sch = [ac.P_UNI1, ac.P_UNI5, ac.P_IND1]
-        for ent in corpus[:(60 if tier == "quick" else 287)]:
+        for ent in corpus[:(20 if tier == "quick" else 287)]:
             cs += ac.cases([ent["D"]], ["ParCons(b0,BioConsert)", "ParCons(b2,Borda)", "ParCons(b0,BioCo)", "ParCons(b1,KwikSort)",
                                         "ParCons(b3,BioConsert)"], [sch[ent["sch"]]], flags=(1,))
         return cs
